@@ -381,6 +381,9 @@ func genC38(t *Tape) *Plan {
 	GenSchedConfig(t, cfg)
 	cfg.MaxInflight = []uint16{0, 2}[t.Draw("c38.maxinflight", 2)]
 	cfg.SysInterval = []int64{0, 1}[t.Draw("c38.sys", 2)]
+	// a client limit below the number of clients of the run: refused connection attempts are part of the history
+	// the counters have to survive
+	cfg.MaxClients = []int64{0, 0, 2, 3}[t.Draw("c38.maxclients", 4)]
 	n := 8 + t.Draw("c38.len", 15)
 	for len(g.plan.Ops) < n {
 		if t.Draw("c38.clear", 8) == 0 {
